@@ -50,6 +50,8 @@ def run_property(prop, tier, seed, only=None):
     harnesses = [h for h in spec["harnesses"] if tier in h.get("tiers", ("quick", "thorough"))]
     if only:
         harnesses = [h for h in harnesses if only in h["name"]]
+    seen_names = set()
+    harnesses = [h for h in harnesses if not ((h["crate"], h["name"]) in seen_names or seen_names.add((h["crate"], h["name"])))]
     rnd = random.Random(seed)
     # the seed only permutes the order in which harnesses are started
     order = list(harnesses)
